@@ -234,6 +234,21 @@ ADDED3 = {
     "C18": "Also: numbers held in ONE constant node (what func_adl makes of a captured python variable), -0.0 by bit pattern, '?', two bank names in one query; string "
            "positions on all three backends in the quick tier.",
 }
+ADDED4 = {
+    "C01": "Also: a bound sequence used in a conditional's test, inside an arm and once more at event level (every order, three head sequences).",
+    "C03": "Also: column and tree names outside ASCII with every kind of neighbour after the non-ASCII character.",
+    "C05": "Also the conditional sub-family of the sequence-parameter programs (what an arm computed stays in the arm).",
+    "C06": "Also: the same collection declaration attached two and three times to one query.",
+    "C07": "Also two menu queries whose arithmetic meets value types outside int / float / double (accepted or refused - the same after every history).",
+    "C08": "Also: lambda parameters named like a documented math function the query calls.",
+    "C10": "Also: an earlier query of the process (same executor object, or an executor of its own) that declared the same (type, method) differently or declared what this "
+           "query leaves undeclared.",
+    "C11": "Also: a sequence of injected-call results bound to a lambda parameter and consumed by two or three loops (functions, methods, the built-in attribute getter).",
+    "C12": "Also: the function's result as an argument of a declared C++ function and of the built-in DeltaR.",
+    "C13": "Also: operator cells after an earlier query declared the value methods with other types; a backend-default bool method declared int by the query, in arithmetic.",
+}
+for _k, _v in ADDED4.items():
+    ADDED3[_k] = (ADDED3.get(_k, "") + " " + _v).strip()
 for _k, _v in ADDED3.items():
     ADDED2[_k] = (ADDED2.get(_k, "") + " " + _v).strip()
 for _k, _v in ADDED2.items():
